@@ -560,8 +560,9 @@ def run_check(prop: str, tier: str) -> int:
             "refutation_searches": searches,
             "canaries": canary_report,
             "bounded_complement": (None if complement is None else {
-                "label": "BOUNDED stand-in for the functions not under contract; not counted in obligations/discharged",
-                "functions_not_under_contract": complement.get("functions"), "evaluations": complement.get("evaluations"),
+                "label": "BOUNDED stand-in / second opinion (native oracle over an enumerated zoo); not counted in "
+                         "obligations/discharged",
+                "covers": complement.get("functions"), "evaluations": complement.get("evaluations"),
                 "distinct_cases": complement.get("distinct"), "outside_domain": complement.get("unreachable"),
                 "failing_cases": len(complement.get("failures", [])), "rule": complement.get("rule"),
                 "samples": complement.get("samples"), "known_signatures_active": complement.get("known_signatures_active"),
